@@ -31,7 +31,7 @@ FLOORS = {"quick": {"A.load-vs-model": 100, "A.listing": 15, "A.history": 30, "A
 TIMEOUT = {"quick": 900, "thorough": 7200}
 
 LAYOUTS_QUICK = [(2, 2, False), (2, 1, True)]
-LAYOUTS_THOROUGH = [(1, 0, False), (1, 1, False), (1, 3, False), (2, 2, False), (2, 1, True), (3, 1, False), (3, 2, True), (2, 3, False), (1, 2, True), (2, 0, False), (3, 3, False), (2, 2, True)]
+LAYOUTS_THOROUGH = [(1, 0, False), (1, 1, False), (1, 3, False), (2, 2, False), (2, 1, True), (3, 1, False), (3, 2, True), (2, 3, False), (1, 2, True), (1, 0, True), (3, 3, False), (2, 2, True)]  # burnSteps 0 is only accepted for a single cycle
 
 
 def failure_points(ncyc, bsteps, coupled):
